@@ -14,15 +14,12 @@ theorem or80 : ∀ x, x < 64 → x ||| 0x80 = x + 128 := by decide
 theorem orC0 : ∀ x, x < 32 → x ||| 0xC0 = x + 192 := by decide
 theorem orE0 : ∀ x, x < 16 → x ||| 0xE0 = x + 224 := by decide
 theorem orF0 : ∀ x, x < 8 → x ||| 0xF0 = x + 240 := by decide
-/-- The faulty byte of the surrogate branch: bit 6 of the code point survives the mask. -/
-theorem orFF : ∀ x, x < 256 → x ||| 0x80 = if x < 128 then x + 128 else x := by decide +kernel
 
 theorem and3F (v : Nat) : v &&& 0x3F = v % 64 := Nat.and_two_pow_sub_one_eq_mod v 6
 theorem and7F (v : Nat) : v &&& 0x7F = v % 128 := Nat.and_two_pow_sub_one_eq_mod v 7
 theorem and1F (v : Nat) : v &&& 0x1F = v % 32 := Nat.and_two_pow_sub_one_eq_mod v 5
 theorem andF (v : Nat) : v &&& 0xF = v % 16 := Nat.and_two_pow_sub_one_eq_mod v 4
 theorem and7 (v : Nat) : v &&& 0x7 = v % 8 := Nat.and_two_pow_sub_one_eq_mod v 3
-theorem andFF (v : Nat) : v &&& 0xFF = v % 256 := Nat.and_two_pow_sub_one_eq_mod v 8
 theorem shr6 (v : Nat) : v >>> 6 = v / 64 := Nat.shiftRight_eq_div_pow v 6
 theorem shr12 (v : Nat) : v >>> 12 = v / 4096 := Nat.shiftRight_eq_div_pow v 12
 theorem shr18 (v : Nat) : v >>> 18 = v / 262144 := Nat.shiftRight_eq_div_pow v 18
@@ -63,11 +60,9 @@ theorem packOne_four (v : Nat) (h1 : 65536 ≤ v) (h2 : v ≤ 1114111) :
 theorem packSur_eq (hi lo : Nat) :
     packSur hi lo =
       let cp := 65536 + (hi - 55296) * 1024 + (lo - 56320)
-      [cp / 262144 % 8 + 240, cp / 4096 % 64 + 128, cp / 64 % 64 + 128,
-        if cp % 256 < 128 then cp % 256 + 128 else cp % 256] := by
+      [cp / 262144 % 8 + 240, cp / 4096 % 64 + 128, cp / 64 % 64 + 128, cp % 64 + 128] := by
   simp only [packSur]
-  rw [cont_byte, cont_byte, shr6, shr12, shr18, and7, orF0 _ (by omega), andFF,
-    orFF _ (by omega)]
+  rw [cont_byte, cont_byte, cont_byte, shr6, shr12, shr18, and7, orF0 _ (by omega)]
 
 /-! ## Decoding what was packed -/
 
@@ -147,9 +142,7 @@ theorem sur_cp (c : Nat) (h1 : 65536 ≤ c) (h2 : c ≤ 1114111) :
     65536 + (hiSur c - 55296) * 1024 + (loSur c - 56320) = c := by
   simp only [hiSur, loSur]; omega
 
-theorem lexSur_eq (c : Nat) (h1 : 65536 ≤ c) (h2 : c ≤ 1114111) :
-    lexSur c = utf8Decode [c / 262144 % 8 + 240, c / 4096 % 64 + 128, c / 64 % 64 + 128,
-      if c % 256 < 128 then c % 256 + 128 else c % 256] := by
+theorem lexSur_scalar (c : Nat) (h1 : 65536 ≤ c) (h2 : c ≤ 1114111) : lexSur c = some c := by
   have hh : hiSur c < 65536 := by simp only [hiSur]; omega
   have hl : loSur c < 65536 := by simp only [loSur]; omega
   have hr : (55296 ≤ hiSur c && hiSur c ≤ 56319) = true := by
@@ -161,22 +154,6 @@ theorem lexSur_eq (c : Nat) (h1 : 65536 ≤ c) (h2 : c ≤ 1114111) :
   simp only [lexSur, value4_spell4 _ hh, value4_spell4 _ hl, consumeUnicode]
   rw [if_pos hr, if_pos lr, packSur_eq]
   simp only [sur_cp c h1 h2]
-
-theorem lexSur_good (c : Nat) (h1 : 65536 ≤ c) (h2 : c ≤ 1114111) (h : c % 128 < 64) :
-    lexSur c = some c := by
-  rw [lexSur_eq c h1 h2]
-  have : (if c % 256 < 128 then c % 256 + 128 else c % 256) = c % 64 + 128 := by
-    split <;> omega
-  rw [this]
   exact decode_four c h1 h2
-
-theorem lexSur_bad (c : Nat) (h1 : 65536 ≤ c) (h2 : c ≤ 1114111) (h : ¬ c % 128 < 64) :
-    lexSur c = none := by
-  rw [lexSur_eq c h1 h2]
-  have hb : (if c % 256 < 128 then c % 256 + 128 else c % 256) ≥ 192 := by
-    split <;> omega
-  generalize (if c % 256 < 128 then c % 256 + 128 else c % 256) = b4 at hb
-  have : isCont b4 = false := by simp [isCont]; omega
-  simp [utf8Decode, this]
 
 end Dmn.Escape
